@@ -53,7 +53,7 @@ HIST = {
  'C04/1': "first run: no-failing-input-found (the RedactTables translator noticed the rewritten match) -> near-miss event types (bare suffixes, case, blanks, other prefixes) in the systematic stream",
  'C13/2': "first run: no-failing-input-found (the defaults obligation broke; the specification read `server-default` off the compiled flag) -> every server-default rule against every edit, and the specification's start state marks rules server-default by origin",
  'C09/2': "first run: missed by C09 and C08 (no content carried a near-miss spelling of the member) -> near-miss spellings in restricted joins",
- 'C02/2': "C02: reported through the model/implementation difference (no-failing-input-found): the model checks every signature, the tamper stream flips one signature at a time",
+ 'C02/2': "first run: no-failing-input-found (the model differed; the spec predicate asked for one honest signature per entity only) -> the predicate now requires every supported signature of an entity to be honest",
 }
 first, last = {}, {}
 cur = None
